@@ -136,22 +136,22 @@ class BasicForm(Expr):
 
         return self._kwargs
 
+    def _free_variables_subs(self, **kwargs):
+        """Substitution dictionary {free variable: value} for the given keyword arguments."""
+        subs = {}
+        if kwargs:
+            _kwargs = self.get_free_variables()
+            for name, v in kwargs.items():
+                if name not in _kwargs:
+                    raise ValueError('{} is not a free variable'.format(name))
+                subs[_kwargs[name]] = v
+        return subs
+
     def _update_free_variables(self, **kwargs):
 
         expr = self.expr
-
-        if not kwargs:
-            return expr
-
-        # ... use free variables if given and available
-        _kwargs = self.get_free_variables()
-        _kwargs_names = list(_kwargs.keys())
-        for name, v in kwargs.items():
-            if not(name in _kwargs_names):
-                raise ValueError('{} is not a free variable'.format(name))
-
-            var = _kwargs[name]
-            expr = expr.xreplace({var: v})
-        # ...
+        subs = self._free_variables_subs(**kwargs)
+        if subs:
+            expr = expr.xreplace(subs)
 
         return expr
